@@ -58,7 +58,11 @@ Definition msg_class (m : text) : text :=
 
 (* Story::add_error: only the class of the message is kept *)
 Definition add_error_msg (m : text) (is_warning : bool) : M unit :=
-  let cls := msg_class m in
+  (* "RUNTIME ERROR: (<current path>): <message>"; class and raising site are kept *)
+  let* p := m_read ss_cur_pointer in
+  let* root := gets root_of in
+  let* site := lift (do op <- ptr_path root p; Ok (match op with Some pa => path_string pa | None => [] end)) in
+  let cls := msg_class m ++ [64] ++ site in
   if is_warning then mod_state (fun s => s <| ss_warnings ::= fun l => l ++ [cls] |>)
   else let* _ := mod_state (fun s => s <| ss_errors ::= fun l => l ++ [cls] |>) in
        m_state_res force_end.
